@@ -373,6 +373,20 @@ class TimedWindowNode(Segment):
                 'last': VAw(z3.Const('last0', sym.Aw))}
 
 
+def _last_is_reusable_future(self_, I, o, fr):
+    """self.last is ONE future that covers the list _emit returned in this segment"""
+    from pyvc.sym import VAw
+    g = o.state.ghost
+    cell = o.state.heap[self_.pre_args['self'].loc]
+    last = cell.fields.get('last')
+    if '_last_emit_ret' not in g:
+        return z3.BoolVal(False)
+    ret = g['_last_emit_ret']
+    if isinstance(last, VAw) and any(c.eq(ret) for c in getattr(last, 'covers', [])):
+        return z3.BoolVal(True)
+    return z3.BoolVal(False)
+
+
 class TimedWindowUpdate(TimedWindowNode):
     cls = 'timed_window'
     method = 'update'
@@ -406,8 +420,12 @@ class TimedWindowCbTick(TimedWindowNode):
                        note='each buffered element is emitted in exactly one batch; arrivals during the emission land in the new buffer'),
                 Clause('C10.batch_metadata', ['C10'], when='yield:1',
                        text='emitted_md == [flat(old(list(self.metadata_buffer)))] and len(self.metadata_buffer) == 0'),
-                Clause('C03.remembers_emission_awaitable', ['C03', 'C08'], when='yield:1',
-                       text='self.last == emit_rets[0]'),
+                Clause('C03.remembers_one_reusable_future_for_the_whole_emission', ['C03', 'C08', 'C02', 'C16'], when='yield:1',
+                       fn=_last_is_reusable_future, kind='protocol', replay={'scenario': 'timed_window_awaitables_shared', 'cls': self.cls},
+                       note='update() hands self.last to EVERY arrival until the next tick and the forwarder awaits it as well: it must '
+                            'stand for all awaitables of the emission and bear being awaited many times (a future made with '
+                            'gen.convert_yielded / asyncio.gather / ensure_future), not be the bare awaitables themselves -- a '
+                            'coroutine object can be awaited once, the second emitter would get RuntimeError'),
                 Clause('C08.no_other_outcome', ['C08'], when='return', text='False'),
                 ] + self.segment_clauses() + [
                 Clause('C01.reentrancy', ['C08', 'C01'], fn=self.reentrancy(), when='yield:1')]
@@ -1413,7 +1431,10 @@ class TimedWindowUniqueCbTick(TimedWindowUniqueNode):
                        note='each kept element is emitted in exactly one batch; arrivals during the emission land in the new buffer'),
                 Clause('C10.batch_metadata', ['C10'], when='yield:1',
                        text='emitted_md == [flat(old(vals(self._metadata_buffer)))] and len(keys(self._metadata_buffer)) == 0'),
-                Clause('C03.remembers_emission_awaitable', ['C03', 'C08'], when='yield:1', text='self.last == emit_rets[0]'),
+                Clause('C03.remembers_one_reusable_future_for_the_whole_emission', ['C03', 'C08', 'C02', 'C16'], when='yield:1',
+                       fn=_last_is_reusable_future, kind='protocol', replay={'scenario': 'timed_window_awaitables_shared', 'cls': self.cls},
+                       note='update() hands self.last to every arrival until the next tick and the forwarder awaits it as well: one '
+                            'future for the whole emission that bears being awaited many times, not the bare awaitables'),
                 Clause('C08.no_other_outcome', ['C08'], when='return', text='False'),
                 ] + self.segment_clauses() + [
                 Clause('C01.reentrancy', ['C08', 'C01', 'C05'], fn=self.reentrancy(), when='yield:1',
